@@ -1413,9 +1413,9 @@ def _make_dual_use_func(func_ip, func_oop, domain, out_dtype):
             if ndim == 1 and not tensor_valued:
                 # TypeError for meshgrid in 1d, but expected array (see above)
                 try:
-                    func_ip(x, out, **kwargs)
+                    func_ip(x, out=out, **kwargs)
                 except TypeError:
-                    func_ip(x[0], out, **kwargs)
+                    func_ip(x[0], out=out, **kwargs)
             else:
                 func_ip(x, out=out, **kwargs)
 
